@@ -12,7 +12,9 @@ package header
 //@ use @verif/specs/stdlib.spec:stdlib
 //@ use @verif/specs/stdlib.spec:casket_api
 
-//@ unit header_handler_chain frames=on props=C12 filter=`header\.Headers\)\.ServeHTTP$`
+//@ unit header_handler_chain frames=on props=C12,C09 filter=`header\.Headers\)\.ServeHTTP$`
+//@ // C09: the configured header operations are carried out HERE, on the response's header map, before the next handler is
+//@ // called (deletions are armed on the wrapper): a later directive's handler and every error path below see them.
 //@ // C12: a pass-through middleware - it edits header fields of the (wrapped) response, sends nothing itself, calls the next
 //@ // handler exactly once and returns exactly what that returned
 //@ use @verif/specs/stdlib.spec:handler_chain
